@@ -28,6 +28,7 @@ struct Sent {              // a message a client put on the wire
   uint64_t seq = 0;        // event number when it was queued
   wire::Msg m;
   size_t end_off = 0;      // stream offset (client -> bus) of its last byte + 1
+  size_t end_off_stream = 0;   // offset in wire_stream (bytes after BEGIN) of its last byte + 1
   bool valid = true;       // codec verdict for the bytes actually written
   int nfds = 0;
   uint64_t token = 0;
@@ -63,6 +64,10 @@ struct Client {
   uint32_t hello_serial = 0;
   bool stalled = false;            // does not drain at check points
   bool hostile = false;            // raw-bytes client: not flushed at check points
+  std::string wire_stream;         // every byte queued after BEGIN (what the bus's loader will see)
+  size_t wire_pos = 0;             // start of the next message the bus has not dispatched yet
+  bool hostile_lost_sync = false;  // a listed validator finding made the bus accept bytes the codec rejects: stream position unknown
+  size_t wire_delivered = 0;       // how many bytes of wire_stream have been handed to the bus's socket
   uint64_t bytes_in = 0;
 };
 
@@ -128,6 +133,7 @@ class World {
   int client_of_connection(DBusConnection *c);
   std::map<simk::End *, int> srv_to_client;
   std::set<DBusConnection *> live_conns;            // adopted and not yet disconnected
+  std::map<int, int64_t> accept_time_us;            // client -> virtual time the bus adopted its connection
   std::map<DBusConnection *, int> conn_to_client;   // filled by the "setup" probe
 
   // white-box accessors for additional invariants
